@@ -1015,7 +1015,7 @@ rc::Gen<scase_t> gen_scase()
         {
             scase_t c;
             c.n  = *gen::range<int>(1, 3);
-            c.m  = *gen::range<int>(1, 6);
+            c.m  = *gen::chance(12) ? 0 : *gen::range<int>(1, 6); // m = 0: no inequality at all (the solver's direct KKT solve)
             c.p  = *gen::range<int>(0, 2);
             c.qp = *gen::chance(35);
             const auto ints = [](int count, int lo, int hi) { return *rc::gen::container<std::vector<int>>(static_cast<size_t>(count), gen::range<int>(lo, hi)); };
@@ -1040,7 +1040,7 @@ bool build_small(const scase_t& c, c04::iprogram_t& I, std::string& reason)
 {
     const int n = c.n, p = c.p, m = c.m;
     const auto sz = [](int a, int b) { return static_cast<size_t>(a) * static_cast<size_t>(b); };
-    if (n < 1 || n > 3 || m < 1 || m > 6 || p < 0 || p > 2 || c.D.size() != sz(n, n) || c.c.size() != sz(n, 1) || c.A.size() != sz(p, n) ||
+    if (n < 1 || n > 3 || m < 0 || m > 6 || p < 0 || p > 2 || c.D.size() != sz(n, n) || c.c.size() != sz(n, 1) || c.A.size() != sz(p, n) ||
         c.b.size() != sz(p, 1) || c.G.size() != sz(m, n) || c.h.size() != sz(m, 1) || c.slack.size() != sz(m, 1) || c.x0.size() != sz(n, 1) ||
         c.hmode < 0 || c.hmode > 1)
     {
@@ -1202,6 +1202,7 @@ verdict_t check_scase(const scase_t& c, ctx_t& ctx)
         ctx.label(ex.status == c04::xstatus::infeasible ? "exact-infeasible" : "exact-unbounded");
     }
     ctx.label(I.qp ? "QP-positive-definite" : "LP");
+    ctx.label_if(I.G.empty(), T.status == truth_status::optimal ? "no-inequality-optimal" : "no-inequality-infeasible-or-unbounded");
     start_t S;
     S.user = c.user_x0;
     S.x0.resize(I.n);
